@@ -18,7 +18,7 @@ LIMITS = {"LimNone": -1, "Lim128": 128, "Lim0": 0, "Lim200": 200}
 
 class Scn:
     def __init__(self, name, topo="T1", stages="One1", stack="One0", catch="OneF", tx="TxLin", lat="Lat1", pol="PolDrop",
-                 lim="LimNone", menu="MenuChan", start="StartChan", max_inv=6, max_t=12, fix_drain=True):
+                 lim="LimNone", menu="MenuChan", start="StartChan", max_inv=6, max_t=12, fix_drain=True, jitter_ns=0):
         self.__dict__.update(locals())
 
     def mods(self):
@@ -43,9 +43,10 @@ class Scn:
         stack = per_mod(self.stack, {"Stack2": {"a": 2, "b": 2, "c": 2}, "Stack012": {"a": 1, "b": 2, "c": 0}})
         catch = {"OneF": {m: False for m in "abc"}, "OneT": {m: True for m in "abc"}, "CatchB": {"a": False, "b": True, "c": False}}[self.catch]
         ch = {"bitrate": tx["bitrate"], "lat": 1 if self.lat == "Lat1" else 0, "policy": "drop" if self.pol == "PolDrop" else "queue",
-              "limit": LIMITS[self.lim]}
+              "limit": LIMITS[self.lim], "jitter_ns": self.jitter_ns}
         return {"mods": self.mods(), "topo": self.topo, "stages": stages, "stack": stack, "catch": catch,
-                "chans": {"1": ch, "2": ch}, "tick_ns": tx["tick_ns"], "bytes": tx["bytes"], "max_t": self.max_t}
+                "chans": {"1": ch, "2": ch}, "tick_ns": tx["tick_ns"], "bytes": tx["bytes"], "max_t": self.max_t,
+                "per_module": self.jitter_ns > 0}
 
 
 def run_scn(v, wd, prop, scn, mc=True):
@@ -99,6 +100,9 @@ def c07(tier):
         Scn("unlimited_rate", tx="TxZero", pol="PolQueue", max_inv=n - 1),
         Scn("fast_queue", tx="TxFast", pol="PolQueue", lat="Lat0", max_inv=n),
         Scn("fast_drop_lat1", tx="TxFast", pol="PolDrop", lat="Lat1", max_inv=n - 1),
+        # jitter of 1 us on a 1 ms tick grid: arrivals stay inside their tick, busy periods must not be stretched by the jitter
+        Scn("jitter_drop", pol="PolDrop", max_inv=n, jitter_ns=1000),
+        Scn("jitter_queue", pol="PolQueue", lim="Lim128", max_inv=n, jitter_ns=1000),
     ]
     if tier == "thorough":
         fam.append(Scn("queue_lat0", pol="PolQueue", lat="Lat0", max_inv=n))
